@@ -409,6 +409,40 @@ fn main() {
         });
         let res: Result<(trans::Out, usize), String> = (|| {
             let file = parsed.as_ref().map_err(|e| e.clone())?;
+            if let Some((traits, macs)) = &spec.inventory {
+                // the inventory of the file: (trait, implementing type) and (macro, arguments) in source order
+                let mut rows: Vec<String> = vec![];
+                fn walk(items: &[Item], traits: &[&str], macs: &[&str], rows: &mut Vec<String>) {
+                    for it in items {
+                        match it {
+                            Item::Mod(m) => {
+                                if let (false, Some((_, l))) = (is_cfg_test(&m.attrs), &m.content) {
+                                    walk(l, traits, macs, rows);
+                                }
+                            }
+                            Item::Impl(i) => {
+                                if let Some((_, p, _)) = &i.trait_ {
+                                    let tn = last_ident(p);
+                                    if traits.contains(&tn.as_str()) {
+                                        rows.push(format!("inv {} {}", json_str(&tn), json_str(&quote::ToTokens::to_token_stream(&i.self_ty).to_string())));
+                                    }
+                                }
+                            }
+                            Item::Macro(m) => {
+                                let mn = last_ident(&m.mac.path);
+                                if macs.contains(&mn.as_str()) {
+                                    rows.push(format!("inv {} {}", json_str(&mn), json_str(&m.mac.tokens.to_string())));
+                                }
+                            }
+                            _ => {}
+                        }
+                    }
+                }
+                walk(&file.items, traits, macs, &mut rows);
+                let def = format!("Definition {} : list (String.string * String.string) :=\n[{}].", spec.name, rows.join(";\n "));
+                let sig = trans::Sig { module: spec.module.to_string(), coq: spec.name.to_string(), monadic: false, extra: vec![], nparams: 0, ret: specs::Ty::Unknown };
+                return Ok((trans::Out { def, sig, aux: vec![] }, 0));
+            }
             let (f, _) = resolve_f(&file.items, &spec.loc, spec.via.as_ref(), spec.attr_filter)?;
             let f = &f;
             let renames: Vec<(String, String)> = fn_renames.iter().filter(|(fl, _, _)| *fl == spec.file).map(|(_, a, t)| (a.clone(), t.clone())).collect();
